@@ -11,7 +11,6 @@ import (
 	"os"
 	"slices"
 	"runtime"
-	"runtime/pprof"
 	"sync"
 	"time"
 
@@ -175,11 +174,6 @@ func main() {
 		c.Budget(150 * time.Second)
 	}
 
-	if pf := os.Getenv("VERIF_PROF"); pf != "" {
-		f, _ := os.Create(pf)
-		pprof.StartCPUProfile(f)
-		defer pprof.StopCPUProfile()
-	}
 	selfTest()
 
 	runIntDomain()
@@ -188,12 +182,13 @@ func main() {
 	runTimeDomain()
 	runDurationDomain()
 	runUUIDDomain()
-	runStringGrid(thorough)
-	runCodePoints(thorough)
-	runNestDomain(thorough)
-	runAnyDomain(thorough)
 	runOmittableDomain()
 	runResponseDomain()
+	runNestDomain(thorough)
+	runAnyDomain(thorough)
+	// the two large sweeps last: if the internal budget runs out, they are what is cut short
+	runStringGrid(thorough)
+	runCodePoints(thorough)
 
 	var evals int64
 	for _, d := range domains {
@@ -202,11 +197,12 @@ func main() {
 	c.Cov["evaluations"] = int(evals)
 	c.Cov["distinct_nontrivial"] = countDistinct(allNT)
 	c.Cov["rule"] = "every element of each finite grid listed in 'domains' is pushed through the real Marshal*/Unmarshal* " +
-		"functions; evaluations counts (function, input) pairs. An input is non-trivial when the correct output is not a " +
-		"plain copy of it: strings containing a byte outside printable ASCII or a quote/backslash; integers that are non-zero and " +
-		"either reach the function through a carrier type different from the target or lie within 1 of a width boundary; floats " +
-		"other than +0; non-zero times/durations/UUIDs; compositions with at least one container. distinct_nontrivial counts " +
-		"distinct 64-bit FNV hashes of the canonical description of those inputs (the same input fed to several functions counts once)."
+		"functions; evaluations counts (function, input) pairs. A case is non-trivial when the correct output is not a " +
+		"plain copy of the input: strings containing a byte outside printable ASCII or a quote/backslash; integer cases " +
+		"(value, carrier type or Marshal* function, Unmarshal* function) whose value is non-zero; floats other than +0; " +
+		"non-zero times/durations/UUIDs; compositions with at least one container; every Omittable/Response case but the empty one. " +
+		"distinct_nontrivial counts distinct 64-bit FNV-1a hashes of the canonical description of those cases; for strings, floats, " +
+		"times, durations, UUIDs and compositions the description is the input alone, so an input fed to several functions counts once."
 	c.Cov["exhaustive"] = allExhausted
 	c.Cov["domains"] = domains
 	c.Cov["disagreements_by_signature"] = sigCounts
@@ -214,7 +210,7 @@ func main() {
 		"string_alphabet_hex": fmt.Sprintf("% x", alphabet),
 		"string_max_len":      map[bool]int{false: 4, true: 5}[thorough],
 		"code_points":         "every code point 0..0x10FFFF (surrogates as raw 3-byte encodings), 0x110000..0x1100FF as raw 4-byte encodings, every overlong 2/3/4-byte encoding",
-		"code_point_contexts": len(cpContexts(thorough)),
+		"code_point_contexts": fmt.Sprintf("%d (all string paths on the bare encoding; the 3 paths that use gqlgen's own string writer in every context)", len(cpContexts(thorough))),
 		"nest_depth":          3,
 	}
 	c.Assume = []string{
@@ -226,6 +222,5 @@ func main() {
 		"numeric carriers fed to Unmarshal* are integer-valued (the integer boundary grid); a Float target may round to the nearest float64, every other target must keep the exact number or return an error",
 		"MarshalFloat (not the default binding) is only given finite values; non-finite values go through MarshalFloatContext, the default Float binding",
 	}
-	pprof.StopCPUProfile()
 	c.Finish()
 }
